@@ -660,3 +660,42 @@ join:
   %t = add i32 %r, %s
   ret i32 %t
 }
+;;; ATOM inst/alloca-addrspace-used-before-definition
+target datalayout = "A5"
+define i32 @f() {
+entry:
+  br label %body
+exit:
+  %v = load i32, i32 addrspace(5)* %a
+  ret i32 %v
+body:
+  %a = alloca i32, align 4, addrspace(5)
+  store i32 1, i32 addrspace(5)* %a
+  br label %exit
+}
+define void @g(i1 %c) {
+entry:
+  %first = alloca i8, addrspace(5)
+  br label %head
+head:
+  %p = phi i8 addrspace(5)* [ %first, %entry ], [ %next, %body ]
+  store i8 0, i8 addrspace(5)* %p
+  br i1 %c, label %body, label %done
+body:
+  %next = alloca i8, i32 4, addrspace(5)
+  br label %head
+done:
+  ret void
+}
+;;; ATOM inst/call-bitcast-callee-other-return-type
+declare i32 @f(i32)
+declare i32 @v(...)
+define void @g() {
+  call void bitcast (i32 (i32)* @f to void (i32)*)(i32 1)
+  %1 = call i64 bitcast (i32 (i32)* @f to i64 (i32)*)(i32 2)
+  %2 = call i32 bitcast (i32 (...)* @v to i32 ()*)()
+  %3 = call float bitcast (i8* bitcast (i32 (i32)* @f to i8*) to float (i32)*)(i32 3)
+  %4 = add i64 %1, 1
+  %5 = fadd float %3, 1.0
+  ret void
+}
